@@ -47,7 +47,8 @@ def _build(cfg):
     dec = csr.Decoder(addr_width=cfg["aw"], data_width=cfg["dw"], alignment=cfg["align"])
     subs = []
     for i, s in enumerate(cfg["subs"]):
-        bus = csr.Interface(addr_width=s["aw"], data_width=cfg["dw"], path=(f"sub{i}",))
+        bus = csr.Interface(addr_width=s["aw"], data_width=cfg["dw"],
+                            path={"same": ("periph", "bus"), "none": ()}.get(cfg.get("names"), (f"sub{i}",)))
         mm = MemoryMap(addr_width=s["aw"], data_width=cfg["dw"])
         if s.get("res"):
             mm.add_resource(_Res(), name=(f"r{i}",), size=1)
@@ -90,7 +91,8 @@ def configs(tier, seed):
         tries += 1
         aw = rnd.randint(3, 7 if tier == "quick" else 9) if tries % 25 else rnd.choice([12, 16])
         cfg = {"aw": aw, "dw": rnd.choice([8, 16]), "align": rnd.choice([0, 0, 0, 1, 2, 3]), "subs": [],
-               "rejected": rnd.random() < 0.3, "staged": rnd.choice([None, None, 1, 2]), "shared_map": tries % 5 == 2}
+               "rejected": rnd.random() < 0.3, "staged": rnd.choice([None, None, 1, 2]), "shared_map": tries % 5 == 2,
+               "names": {3: "same", 5: "none"}.get(tries % 7)}
         for i in range(rnd.randint(1, 4 if tier == "quick" else 6)):
             s = {"aw": rnd.randint(1, aw - 1), "named": rnd.random() < 0.5, "res": rnd.random() < 0.7}
             mode = rnd.choice(["implicit", "implicit", "explicit", "align_to"])
